@@ -412,11 +412,6 @@ func c12Cycle(rep *Report, cfg pqengine.Config, hseed int64, cycles int, tight b
 			}
 		}
 		// reading and ACK work on the full file
-		if os.Getenv("VERIF_DEBUG") != "" {
-			id, end, pg, off, eb := pq.VerifReaderState(e.R)
-			s, pl, pos, n, pages, _ := e.RawStream()
-			fmt.Printf("cycle %d before read: reader id=%d endID=%d page=%d off=%d eventBytes=%d | model readpos=%d flushed=%d acked=%d | chain: payload=%d pos=%d n=%d pages=%d len=%d\n", c, id, end, pg, off, eb, e.ReadPos, e.Flushed, e.Acked, pl, pos, n, pages, len(s))
-		}
 		e.Apply(pqengine.Op{Kind: "rbegin"})
 		e.Apply(pqengine.Op{Kind: "readall"})
 		e.Apply(pqengine.Op{Kind: "rdone"})
